@@ -124,6 +124,11 @@ SetVar(S, name, v) ==
 RenderV(v) == CASE v.t = "str"  -> v.s
                 [] v.t = "bool" -> IF v.b THEN <<116, 114, 117, 101>> ELSE <<102, 97, 108, 115, 101>>
                 [] v.t = "int"  -> LibItoa(v.v)
+\* a reference to a struct with scalar fields: &{Name:value ...}, fields in the order of the type's declaration
+RECURSIVE ShowFrom(_, _, _)
+ShowFrom(order, f, i) == IF i > Len(order) THEN <<>>
+                         ELSE (IF i > 1 THEN <<32>> ELSE <<>>) \o order[i].b \o <<58>> \o RenderV(f[order[i].n]) \o ShowFrom(order, f, i + 1)
+ShowStruct(order, f) == <<38, 123>> \o ShowFrom(order, f, 1) \o <<125>>
 \* Sprint: operands are separated by a space when neither neighbour is a string
 RECURSIVE SprintFrom(_, _)
 SprintFrom(vs, i) == IF i > Len(vs) THEN <<>>
@@ -229,7 +234,7 @@ EvalExpr(S, n, rest) ==
       [] e.k = "maplit" -> [S EXCEPT !.ctl = ExprItems(e.kvs) \o <<[k |-> "domaplit", n |-> Len(e.kvs)]>> \o rest]
       [] e.k = "new"   -> [S EXCEPT !.ctl = ExprItems(e.fvals) \o <<[k |-> "donew", n |-> n]>> \o rest]
       [] e.k = "choice" -> [S EXCEPT !.ctl = <<[k |-> "dochoice", n |-> e.n]>> \o rest]
-      [] e.k = "lib"   -> [S EXCEPT !.ctl = ExprItems(e.args) \o <<[k |-> "dolib", fn |-> e.fn, nargs |-> Len(e.args)]>> \o rest]
+      [] e.k = "lib"   -> [S EXCEPT !.ctl = ExprItems(e.args) \o <<[k |-> "dolib", fn |-> e.fn, nargs |-> Len(e.args), order |-> e.order]>> \o rest]
 
 \* a value used as slice index / bound
 IntOf(v) == v.v
@@ -475,7 +480,8 @@ Steps(S) ==
                      [] it.fn = "strings.Replace"    -> push(StrV(LibReplace(a[1].s, a[2].s, a[3].s, a[4].v)))
                      [] it.fn = "strings.Join"       -> push(StrV(LibJoin([i \in 1..a[1].len |-> ElemsOf(S, a[1])[i].s], a[2].s)))
                      [] it.fn = "strconv.Itoa"       -> push(StrV(LibItoa(a[1].v)))
-                     [] it.fn = "fmt.Sprint"         -> push(StrV(SprintFrom(a, 1)))
+                     [] it.fn = "fmt.Sprint"         -> IF Len(a) = 1 /\ a[1].t = "ptr" THEN push(StrV(ShowStruct(it.order, S.heap[a[1].id].f)))
+                                                        ELSE push(StrV(SprintFrom(a, 1)))
                      [] it.fn = "fmt.Sprintf"        -> push(StrV(SprintfFrom(a[1].s, 1, Tail(a), 1)))
                      [] it.fn = "strings.Split"      ->
                             LET parts == LibSplit(a[1].s, a[2].s) IN
